@@ -74,7 +74,7 @@ def header_stream(ctx, g, body):
         ctx.case("header:" + sig, True)
         if want and out != want:
             ctx.add("oracle", "header:" + sig.split("=")[0].rstrip("0123456789"), "header variation %s: outcome %s, must be rejected with %s" % (sig, out, want),
-                    {"tag": sig, "file": bs[:64].hex()})
+                    {"tag": sig, "file": bs[:20000].hex(), "must_reject_with": want})
 
 
 def run(ctx):
@@ -152,6 +152,5 @@ def run(ctx):
 
 
 def replay(ctx, path):
-    d = json.load(open(path))
-    print(json.dumps(d["primary"], indent=1)[:4000])
-    return 0
+    import replaylib
+    return replaylib.replay_file(path)
